@@ -10,12 +10,14 @@ RULE = ("C05-style histories biased to writes: key-override writes to shared ove
         "delete the override link), equal bytes produced by different functions (12% of values reuse ids 1-3), forgets of "
         "other calls, restarts; after EVERY step the whole store is scanned (hash of every object under c/, link targets, "
         "one object per hash) and every live memento is re-read through a cache-less backend; non-trivial = >=3 ops incl. "
-        "a memoize; distinct = distinct event-log digest")
+        "a memoize; every third history additionally injects transient I/O errors (errno before an operation, error on first "
+        "write, short write + errno) into some memoize operations - the operation may fail, the store must stay consistent; "
+        "distinct = distinct event-log digest")
 ASSUMPTIONS = ["the value stored at creation is remembered by a ledger (pickle round trip) and compared by type-aware deep equality",
                "filesystem backends only (the memory backend has no content keys)"]
 COMPONENTS = {"real": ["filesystem storage backend, codecs, metadata source, memory cache", "tmpfs"],
               "stub": ["uuid4 (seeded)", "clock (virtual)", "mementos built by the harness"]}
-REACH = ["tree_scans", "immutability_reads", "dedup_shared_objects", "override_writes", "rememoize_live_key", "forgot_live"]
+REACH = ["io_errors_injected", "memoize_failed_with_io_error", "tree_scans", "immutability_reads", "dedup_shared_objects", "override_writes", "rememoize_live_key", "forgot_live"]
 
 
 def cases(tier, seed):
@@ -25,7 +27,18 @@ def cases(tier, seed):
         rng = core.stream(s, "gen")
         kn = storeops.gen_knobs(rng, backends=("fs", "fs+cache"))
         kn["hold"] = rng.random() < 0.3
-        out.append({"seed": s, "knobs": kn, "ops": storeops.gen_ops(rng, rng.randrange(3, 31), kn, "c07")})
+        ops = storeops.gen_ops(rng, rng.randrange(3, 31), kn, "c07")
+        case = {"seed": s, "knobs": kn, "ops": ops}
+        if i % 3 == 0:
+            # fault-injecting configuration: transient I/O errors (reported to the caller) inside some memoize operations
+            faults = {}
+            for oi, op in enumerate(ops):
+                if op[0] == "memoize" and rng.random() < 0.35:
+                    v = rng.choice([("error-before", {}), ("error-first-write", {}), ("short-error", {"cut": "half"}),
+                                    ("short-error", {"cut": "allbut1"}), ("short-error", {"cut": "zero"})])
+                    faults[str(oi)] = dict(variant=v[0], k=rng.randrange(1, 14), errno=rng.choice(["ENOSPC", "EIO", "EFBIG"]), **v[1])
+            case["faults"] = faults
+        out.append(case)
     return out
 
 
